@@ -220,6 +220,21 @@ def family_interceptors():
     return out
 
 
+def family_routing():
+    """P7: non-manual partitioners over topics with leaderless partitions (C04 success partition, C17 routing)"""
+    out = []
+    for part in ("rr", "random", "hash"):
+        for leaders in ([1, 1, 1], [0, 1, 1], [1, 0, 1], [0, 0, 1], [0, 1, 0, 1]):
+            for keyed in (False, True):
+                if keyed and part != "hash":
+                    continue
+                cfg = dict(partitioner=part, retryMax=1, leaders=leaders, nbrokers=1)
+                steps = [dict({"op": "submit", "id": i, "part": 0}, **({"key": "key%d" % i} if keyed else {})) for i in range(1, 9)]
+                steps += [{"op": "wait_outcomes", "n": 8, "ms": 3000}, {"op": "close"}]
+                out.append(sc("route-%s-%s-%s" % (part, "".join(map(str, leaders)), "k" if keyed else "nk"), "routing", cfg, steps))
+    return out
+
+
 def family_overflow(idem):
     """a message waits for space (Flush.MaxMessages / request size reached while a request is in flight)
     and the in-flight request then fails: the waiting message must not overtake the bounced ones"""
